@@ -169,6 +169,15 @@ func runC10(c *runCtx) error {
 			c10Case(e, fmt.Sprintf("float_list(%s, %s)[0]", a, b), "index")
 		}
 	}
+	// = / != on the numbers the conversion functions return: integer, float and mixed operands
+	for _, a := range []string{"0.5", "1.5", "2.25", "float(value)", "float(strlen(key))", "int(value) * 0.5"} {
+		for _, b := range []string{"0.5", "1.5", "2.25", "2", "int(value)", "float(value)", "strlen(key)"} {
+			for _, op := range []string{"=", "!="} {
+				c10Case(e, fmt.Sprintf("%s %s %s", a, op, b), "float-eq")
+				c10Case(e, fmt.Sprintf("%s %s %s", b, op, a), "float-eq")
+			}
+		}
+	}
 	// long arguments: vectors / lists / texts well beyond anything a short enumeration reaches
 	for _, n := range []int{16, 17, 20, 33, 70} {
 		ones, zeros, asc := make([]string, n), make([]string, n), make([]string, n)
